@@ -93,7 +93,15 @@ func CheckMessage(c *core.Ctx, prop string, msg any, minor int, desc string) ([]
 	// decode
 	back := reflect.New(reflect.TypeOf(msg).Elem()).Interface()
 	var derr error
-	if p, v, st := core.Guard(func() { derr = ttlv.UnmarshalTTLV(append([]byte{}, enc...), back) }); p {
+	in := append([]byte{}, enc...)
+	// the decoded message must be equal in content to the original whatever happens to the receive
+	// buffer afterwards: the buffer is overwritten as soon as the decoder has returned
+	if p, v, st := core.Guard(func() {
+		derr = ttlv.UnmarshalTTLV(in, back)
+		for k := range in {
+			in[k] = 0x5A
+		}
+	}); p {
 		c.Violation(core.PanicSig(v, st), fmt.Sprintf("UnmarshalTTLV panicked on the library's own encoding: %v", v), map[string]any{"message": desc, "bytes": hx(enc), "stack": st})
 		return enc, false
 	}
